@@ -10,6 +10,69 @@ ROOT = os.path.dirname(os.path.dirname(os.path.abspath(__file__)))
 RM = "runtime monitoring: "
 
 CHECKS = {
+    "C01": (
+        RM + "generated binding programs compiled from the emitted support header against an executable Qt API model and executed "
+        "under ASan+UBSan in boundary-biased states; reference-interpreter oracle on every defined (program, state) pair",
+        "exploration",
+        "About a thousand type-directed random programs per quick run (expressions and statement blocks with let/const/shadowing, "
+        "if/else, switch with default anywhere, fall-through, break under if, early return, completion values; forced constant-folding "
+        "cells per operator and sign class) are translated by the real library, the UNMODIFIED uisupport header is compiled with g++ and "
+        "every eval function is called in 24 states; values are compared exactly (bit-identical doubles, UTF-16 code units).",
+        "Trusted: reference interpreter qv/gen_expr.py (documented semantics; overflow, uint wrap, NaN, null dereference, bad subscript = "
+        "undefined and never executed), API model cxx/qtmodel_rt.h + qv/cxxmodel.py, mini-uic.",
+        "DESIGN.md §4 C01",
+    ),
+    "C02": (
+        RM + "generated binding networks run against a signal/slot model through change histories (set, re-point, null, change old "
+        "peer); invariant target == reference fix point checked at every quiescent point; online dependency monitor on the IR via the hook",
+        "exploration",
+        "After setup() and after each of 30-60 accepted steps all bound targets are dumped and compared with the reference fix point of "
+        "the binding network; the IR monitor checks that every non-constant pointer property read is covered by a static dependency or a "
+        "preceding observe statement; bindings reading a notify-less property must be rejected.",
+        "Only quiescent states are judged (no UBSan arithmetic checks here: transient mixes of old and new values may be undefined). "
+        "Model setters never clamp; object deletion is not modelled.",
+        "DESIGN.md §4 C02",
+    ),
+    "C03": (
+        RM + "literal-only expressions in every spelling through the real library; emitted .ui values decoded by expat and compared "
+        "with an independent checked-64-bit / IEEE / UTF-16 reference",
+        "exploration",
+        "Thousands of constant bindings (one document each) over the foldable operators with values biased to 2^31, 2^32, 2^53, 2^62, "
+        "2^63-1 in all radix / separator / exponent spellings, strings with escapes, enums, flag unions, string lists, object references; "
+        "embedded values must equal the reference, expressions with undefined value must not be embedded.",
+        "Not judged: integers outside the range of the bound property type, non-finite doubles, legacy octal.",
+        "DESIGN.md §4 C03",
+    ),
+    "C05": (
+        RM + "catalogue of single type-breaking edits and generated programs with AST-level single-edit mutants through the real "
+        "library; acceptance oracle + independent IR typing monitor via the hook",
+        "exploration",
+        "Every catalogue entry (operand types, conditions, unsupported syntax, assignments, arguments, callback parameters, result type) "
+        "is tried with constant and property-reading operands and must be rejected; generated well-typed programs (dynamic and constant "
+        "profile, callbacks) must be accepted, their mutants rejected; every accepted body is re-typed by an independent rule table.",
+        "Only edits that are unambiguously ill-typed by docs/language.md are generated.",
+        "DESIGN.md §4 C05",
+    ),
+    "C06": (
+        RM + "CFG + definite-assignment monitor on the finished IR via the hook over thousands of bodies, token scan of every emitted "
+        "function, execution under sanitizers (quick) / valgrind memcheck with origin tracking (thorough)",
+        "exploration",
+        "Value programs and callback bodies with arbitrary nestings of ternary, &&, ||, if/else, switch, break, early return, dead "
+        "code and trailing declarations; jump targets, reachable unreachable-markers, mixed void/value returns, reads of locals not "
+        "assigned on every path; Q_UNREACHABLE events and uninitialised reads at run time on defined cases.",
+        "Definite assignment is judged for every local because the generators give every declaration an initialiser.",
+        "DESIGN.md §4 C06",
+    ),
+    "C08": (
+        RM + "hash-heavy documents translated repeatedly in shuffled order inside fresh processes and through the CLI; equality "
+        "oracle; hash-order diversity measured through the hook",
+        "exploration",
+        "Each document is translated 24-60 times; .ui, compact .ui, header hashes and the diagnostic set must be identical; the hook "
+        "reports the order in which the real HashMaps were iterated, so the evidence shows that iteration orders really differed; the "
+        "CLI is run three times per document and must not touch unchanged outputs.",
+        "A run in which no document showed two visit orders is inconclusive.",
+        "DESIGN.md §4 C08",
+    ),
     "C09": (
         RM + "seeded hostile-string documents through the real library; emitted .ui re-read by an independent XML parser (expat), "
         "grammar-table monitor, string read-back oracle",
@@ -51,6 +114,17 @@ CHECKS = {
         "Unspecified array entries are not judged.",
         "DESIGN.md §4 C12",
     ),
+    "C13": (
+        RM + "generated signal handlers compiled from the emitted header against the API model; connect events and effect traces "
+        "(property writes, method calls, console output) compared with the reference interpreter in statement mode",
+        "exploration",
+        "Handlers in every form (expression, block, function, arrow; 0..n leading parameters) on Qt and synthetic signals incl. "
+        "default-argument families and inherited signals; setup() must connect exactly one handler to the overload with most "
+        "arguments; each defined (state, arguments) tuple is emitted and its effect trace compared in content and order; handlers on true "
+        "overloads, non-signals or with incompatible parameters must be rejected.",
+        "At most one side-effecting call per statement; order between a call's receiver and arguments is not judged.",
+        "DESIGN.md §4 C13",
+    ),
     "C14": (
         RM + "each generated document (constant-only, dynamic, callbacks, warning-only, single fault) translated in the three modes "
         "by the real library; relational monitor across the three results",
@@ -59,6 +133,16 @@ CHECKS = {
         "of generate errors, and header presence in generate mode only.",
         "Header emptiness is read from the emitted header text (BindingIndex enumerators, on* functions, setup body).",
         "DESIGN.md §4 C14",
+    ),
+    "C16": (
+        RM + "emitted support headers compiled (g++ -std=c++17 -Wall -Werror=return-type) against API declarations generated from "
+        "the same type information + mini-uic output; token-scan monitor; hostile string literals compiled and printed",
+        "exploration",
+        "Headers of tree documents (dynamic, callback and gadget sub-bindings, adversarial ids), program documents with up to 72 "
+        "bindings (crossing the 32/64 guard words), callback documents, hazard shapes and name-prefix collision documents; the scan checks "
+        "single definition of every called member, distinct binding indices, guard/observer array sizes, includes.",
+        "The API model stands in for Qt's headers; QFlags operators are not modelled.",
+        "DESIGN.md §4 C16",
     ),
     "C17": (
         RM + "random class graphs loaded through the real type-map loader; all-pairs/all-names queries compared with a plain "
